@@ -193,6 +193,9 @@ func ParseCopySourceRange(size int64, acceptRange string) (int64, int64, error) 
 // ParseCopySource parses x-amz-copy-source header and returns source bucket,
 // source object, versionId, error respectively
 func ParseCopySource(copySourceHeader string) (string, string, string, error) {
+	if copySourceHeader == "" {
+		return "", "", "", s3err.GetAPIError(s3err.ErrInvalidCopySource)
+	}
 	if copySourceHeader[0] == '/' {
 		copySourceHeader = copySourceHeader[1:]
 	}
@@ -211,7 +214,36 @@ func ParseCopySource(copySourceHeader string) (string, string, string, error) {
 		return "", "", "", s3err.GetAPIError(s3err.ErrInvalidCopySource)
 	}
 
+	// the source must name a bucket and an object, not a path that
+	// resolves somewhere else
+	if srcBucket == "" || srcBucket == "." || srcBucket == ".." ||
+		strings.ContainsRune(srcBucket, 0) ||
+		!IsSafeObjectKey(srcObject) || !IsSafeID(versionId) {
+		return "", "", "", s3err.GetAPIError(s3err.ErrInvalidCopySource)
+	}
+
 	return srcBucket, srcObject, versionId, nil
+}
+
+// IsSafeObjectKey reports whether the object key can be joined below a
+// bucket directory without resolving to another location: no `.` or `..`
+// path segments and no NUL bytes
+func IsSafeObjectKey(key string) bool {
+	if strings.ContainsRune(key, 0) {
+		return false
+	}
+	for _, seg := range strings.Split(key, "/") {
+		if seg == "." || seg == ".." {
+			return false
+		}
+	}
+	return true
+}
+
+// IsSafeID reports whether a version id or upload id is a plain name:
+// no path separators, no `.` or `..`, no NUL bytes
+func IsSafeID(id string) bool {
+	return id != "." && id != ".." && !strings.ContainsAny(id, "/\x00")
 }
 
 // ParseObjectTags parses the url encoded input string into
